@@ -92,7 +92,12 @@ func tail(s string, n int) string {
 }
 
 func decode(name string) *gedcom.Document {
-	d, err := gedcom.NewDocumentFromString(docs[name])
+	text, ok := docs[name]
+	if strings.HasPrefix(name, "text:") { // a document given by its text (the state of an edited document)
+		text, ok = name[5:], true
+	}
+	_ = ok
+	d, err := gedcom.NewDocumentFromString(text)
 	if err != nil {
 		panic(err)
 	}
@@ -173,6 +178,7 @@ type kase struct {
 	CLI    bool         `json:"cli,omitempty"`            // names: through the built `gedcom publish` command
 	Shared bool         `json:"shared_options,omitempty"` // histories: one options struct for all publishings
 	RealDir bool        `json:"real_directory,omitempty"` // schedules: the real DirectoryFileWriter into a scratch directory (file-system operations are scheduling points)
+	Edit   string       `json:"edit,omitempty"`           // histories: publish Seq[0], edit that document object through the API, publish it again with a new Publisher
 	Twin   string       `json:"twin,omitempty"`           // histories: two publishers of ONE document object, both constructed before either publishes; the other one's visibility
 }
 
@@ -550,7 +556,77 @@ func judgeHistory(k kase) (fs []finding) {
 	return
 }
 
+// docEdits: changes made through the API to a document that has already been published once.
+var docEdits = map[string]func(d *gedcom.Document){
+	"add-individual-with-place": func(d *gedcom.Document) {
+		i := d.AddIndividual("I77", gedcom.NewNameNode("Nova /Newcomer/"))
+		i.AddNode(gedcom.NewNode(gedcom.TagBirth, "", "", gedcom.NewDateNode("4 Apr 1844"), gedcom.NewNode(gedcom.TagPlace, "Newplace, Nowhere", "")))
+	},
+	"add-living-individual-with-place": func(d *gedcom.Document) {
+		i := d.AddIndividual("I78", gedcom.NewNameNode("Liv /Lately/"))
+		i.AddNode(gedcom.NewNode(gedcom.TagBirth, "", "", gedcom.NewDateNode("4 Apr 2015"), gedcom.NewNode(gedcom.TagPlace, "Secretplace, Nowhere", "")))
+	},
+	"add-event-with-place": func(d *gedcom.Document) {
+		if is := d.Individuals(); len(is) > 0 {
+			is[0].AddNode(gedcom.NewNode(gedcom.TagResidence, "", "", gedcom.NewDateNode("5 May 1855"), gedcom.NewNode(gedcom.TagPlace, "Otherplace, Nowhere", "")))
+		}
+	},
+	"rename-first": func(d *gedcom.Document) {
+		if is := d.Individuals(); len(is) > 0 {
+			for _, n := range is[0].Names() {
+				is[0].DeleteNode(n)
+			}
+			is[0].AddName("Renamed /Person/")
+		}
+	},
+	"delete-first-individual": func(d *gedcom.Document) {
+		if is := d.Individuals(); len(is) > 0 {
+			d.DeleteNode(is[0])
+		}
+	},
+	"delete-death-of-first": func(d *gedcom.Document) {
+		if is := d.Individuals(); len(is) > 0 {
+			gedcom.DeleteNodesWithTag(is[0], gedcom.TagDeath)
+			gedcom.DeleteNodesWithTag(is[0], gedcom.TagBurial)
+		}
+	},
+	"add-family": func(d *gedcom.Document) {
+		if is := d.Individuals(); len(is) > 1 {
+			d.AddFamilyWithHusbandAndWife("F77", is[len(is)-1], is[0])
+		}
+	},
+}
+var docEditNames = []string{"add-individual-with-place", "add-living-individual-with-place", "add-event-with-place", "rename-first", "delete-first-individual", "delete-death-of-first", "add-family"}
+
 func judgeHistoryHere(k kase) (fs []finding) {
+	if k.Edit != "" {
+		d := k.Seq[0]
+		doc := decode(d)
+		for step := 0; step < 2; step++ {
+			if step == 1 {
+				docEdits[k.Edit](doc)
+			}
+			text := doc.String()
+			w, err := pub.Publish(doc, pub.Options(k.Mask, vis(k.Living)), k.Jobs, 0)
+			if err != nil {
+				fs = append(fs, finding{"publish-returns-error", err.Error()})
+			}
+			if doc.String() != text {
+				fs = append(fs, finding{"publish-modifies-document", d})
+			}
+			got, _ := siteOf(w)
+			want := alone("text:"+text, k.Mask, k.Living)
+			if got.key() != want.key() {
+				when := "before the edit"
+				if step == 1 {
+					when = "published, then edited through the API (" + k.Edit + ") and published again with a new Publisher"
+				}
+				fs = append(fs, finding{"site-depends-on-earlier-publishing:edited-document:" + diffClasses(want, got), fmt.Sprintf("%s (-living %s) %s differs from its present text published alone in a fresh process: %s", d, k.Living, when, diffSites(want, got))})
+				return
+			}
+		}
+		return
+	}
 	if k.Twin != "" {
 		// a private and a public site of the same document object (the way a program that keeps a document in
 		// memory publishes it twice): both publishers exist before the first one publishes
@@ -672,6 +748,15 @@ func units(tier string) []kase {
 			}
 		}
 	}
+	// the same document object published, edited through the API and published again
+	for _, d := range []string{"D2", "D6", "D7"} {
+		for _, e := range docEditNames {
+			for _, living := range []string{"show", "hide", "placeholder"} {
+				out = append(out, kase{Part: "histories", Seq: []string{d}, Mask: 63, Living: living, Jobs: 1, Edit: e})
+			}
+			out = append(out, kase{Part: "histories", Seq: []string{d}, Mask: 63, Living: "hide", Jobs: 2, Edit: e})
+		}
+	}
 	// names and closure through the command line
 	for _, d := range []string{"D1", "D2", "D6"} {
 		for _, living := range []string{"show", "hide", "placeholder"} {
@@ -741,7 +826,7 @@ func run(tier, unit string, r *vlib.Rec) {
 	case "histories":
 		r.Eval()
 		r.Add("transitions", int64(len(k.Seq)))
-		if len(k.Seq) > 1 || k.Twin != "" {
+		if len(k.Seq) > 1 || k.Twin != "" || k.Edit != "" {
 			r.Nontrivial(vlib.JSON(k))
 		}
 		report(judgeHistory(k), k)
@@ -850,7 +935,7 @@ func main() {
 		ID:    "C19",
 		Level: "model_checking",
 		Rule: "four parts. names: documents D1 (one person, place, source), D2 (two people with different surnames, a shared place, a family, a source), D3 (hostile: source pointers '../x', 'a/b', 'places', 'x y', '.', '..'; two people whose names collapse to one file key; a person whose key equals a place key; a place named like a list page; surnames starting with a digit, '#', a multi-byte letter) and the empty document x all 64 page-group subsets x 3 visibilities: plain unique file names, every link resolves, DirectoryFileWriter confinement. " +
-			"schedules: the real instrumented Publisher.Publish on D1/D2 under the vsched scheduler, jobs {1,2,3,(8,16)}, every schedule with <=d deviations, set of (name, bytes) equal to the sequential reference, race monitor, termination. histories: every sequence of <=3 publishes over {D1, D2, D4 (D2's pointers reused for other people), empty} in one process against the same document published alone in a fresh process. faults: the writer fails at the k-th file - once, and from there on (several workers fail) - for every k and jobs {1,2,3,8} (and under every schedule within the bound on D1): Publish must return an error and terminate. also: D7 (a family with one living member) in the names part; two publishers of one document object constructed before either publishes (visibility pairs); the real DirectoryFileWriter into a scratch directory under the scheduler with file-system operations as scheduling points (jobs 2 and 3). " +
+			"schedules: the real instrumented Publisher.Publish on D1/D2 under the vsched scheduler, jobs {1,2,3,(8,16)}, every schedule with <=d deviations, set of (name, bytes) equal to the sequential reference, race monitor, termination. histories: every sequence of <=3 publishes over {D1, D2, D4 (D2's pointers reused for other people), empty} in one process against the same document published alone in a fresh process. faults: the writer fails at the k-th file - once, and from there on (several workers fail) - for every k and jobs {1,2,3,8} (and under every schedule within the bound on D1): Publish must return an error and terminate. also: D7 (a family with one living member) in the names part; two publishers of one document object constructed before either publishes (visibility pairs); one document object published, edited through the API (7 edits: people, events with places, names, deaths, families added or removed) and published again with a new Publisher, against its present text published alone; the real DirectoryFileWriter into a scratch directory under the scheduler with file-system operations as scheduling points (jobs 2 and 3). " +
 			"states = distinct global operation traces (schedules part) ; distinct_nontrivial counts those plus the distinct names/history cases.",
 		Assumptions: []string{
 			"Go map iteration inside the instrumented packages is replaced by sorted (or reverse-sorted, as a configuration) key order under exploration, so replay is deterministic; outside exploration Go's own order applies",
